@@ -11,7 +11,8 @@ use crate::e5::{is_boot, meta_str, Serve, World};
 
 #[derive(Clone, Debug, serde::Serialize, serde::Deserialize)]
 pub struct Program {
-    /// per explicit append: 0 plain, 1 --meta colliding with the stamps, 2 --ttl head:1, 3 --context <other>
+    /// per explicit append: 0 plain, 1 --meta colliding with the stamps, 2 --ttl head:1, 3 --context <other>,
+    /// 4 --ttl bogus (the append itself fails: the whole invocation fails)
     pub appends: Vec<u8>,
     /// 0 nothing, 1 string, 2 int, 3 float, 4 bool, 5 list, 6 record, 7 empty string, 8 empty list, 9 empty record, 10 zero
     pub ret: u8,
@@ -24,9 +25,11 @@ pub struct Program {
 pub fn programs(thorough: bool) -> Vec<Program> {
     let mut v = vec![];
     let mut app_sets: Vec<Vec<u8>> = vec![vec![]];
-    for a in 0..4u8 {
+    for a in 0..5u8 {
         app_sets.push(vec![a]);
     }
+    app_sets.push(vec![0, 4]);
+    app_sets.push(vec![4, 0]);
     for a in 0..4u8 {
         for b in 0..4u8 {
             if thorough || a == b || a == 0 || b == 3 {
@@ -85,6 +88,7 @@ pub fn script(p: &Program, other_ctx: &str) -> String {
             0 => "".to_string(),
             1 => " --meta {handler_id: \"forged\", frame_id: \"forged\", u: 1}".to_string(),
             2 => " --ttl head:1".to_string(),
+            4 => " --ttl bogus".to_string(),
             _ => format!(" --context {}", other_ctx),
         };
         body.push_str(&format!("    \"c{}\" | .append out{}{}\n", i, i, flags));
@@ -157,7 +161,7 @@ pub fn run_program(p: &Program) -> (Vec<F>, String) {
         .filter(|f| !is_boot(f) && f.id != flush.id)
         .collect();
     let label = format!("{:?}", p);
-    if p.fail != 0 {
+    if p.fail != 0 || p.appends.contains(&4) {
         outcome.push_str("fail;");
         // nothing of the invocation appears; exactly one unregistered with the error
         if term.topic != "h.unregistered" {
